@@ -85,6 +85,18 @@ func checkServerResponse(c *checker, how, full string, seq uint32, body *wv.V, s
 	if e.Name != full || uint32(e.SeqID) != seq {
 		c.oracle("C12 server response does not echo name and sequence id", input, fmt.Sprintf("name=%s seq=%d", hx([]byte(e.Name)), uint32(e.SeqID)), "the response must carry the request's method name and sequence id")
 	}
+	// where the multiplexer cut the name, as the service saw it, against the model (splitColon;
+	// theorems multiplexed_method_intact / multiplex_cut_at_first_colon)
+	if e.Type == wire.Reply {
+		if v, verr := wv.FromWire(e.Value); verr == nil && len(v.Fields) > 0 && v.Fields[0].V.T == wv.TBinary {
+			b := v.Fields[0].V.Bin
+			if i := bytes.IndexByte(b, '/'); i >= 0 {
+				c.expect("C12 multiplex cut vs model", fmt.Sprintf("MUX %x", full), fmt.Sprintf("some %x. %x.", b[:i], b[i+1:]))
+			}
+		}
+	} else if !strings.Contains(full, ":") {
+		c.expect("C12 multiplex cut vs model", fmt.Sprintf("MUX %x", full), "none")
+	}
 	kind, text := expectedReply(services, full, body)
 	c.rep.Hist("server-answer", kind)
 	switch kind {
@@ -100,6 +112,24 @@ func checkServerResponse(c *checker, how, full string, seq uint32, body *wv.V, s
 	default:
 		if e.Type != wire.Exception {
 			c.oracle("C12 server did not answer with an exception", input, fmt.Sprintf("type=%d", e.Type), "unknown service / unknown method / failing handler must yield an Exception envelope")
+			break
+		}
+		// TApplicationException {1: message, 2: type}: UNKNOWN_METHOD (1) when nobody knows the
+		// method — no such service, or the service says so —, INTERNAL_ERROR (6) when the handler failed
+		wantType := uint64(1)
+		if parts := strings.SplitN(full, ":", 2); len(parts) == 2 && services[parts[0]] && strings.HasPrefix(parts[1], "e") {
+			wantType = 6
+		}
+		got := "no type field"
+		if v, verr := wv.FromWire(e.Value); verr == nil {
+			for _, f := range v.Fields {
+				if f.ID == 2 && f.V.T == wv.TI32 {
+					got = fmt.Sprint(f.V.U)
+				}
+			}
+		}
+		if got != fmt.Sprint(wantType) {
+			c.oracle("C12 server exception has the wrong type", input, "TApplicationException type "+got, fmt.Sprintf("want %d (1 = unknown method, 6 = internal error)", wantType))
 		}
 	}
 }
